@@ -3,7 +3,14 @@
 # (the suite uses real-time timers of a few ms and is flaky when the machine is loaded). Exit 0 iff every
 # test passes in the full run or in an isolated re-run.
 BIN=$1
-OUT=$($BIN --report_level=short --log_level=error 2>&1)
+# a few tests wait without a deadline for bytes their scripted broker sent "7 ms after start": on a loaded machine the
+# bytes can be sent before the client is connected and the test then never ends (seen on the pristine snapshot too)
+for attempt in 1 2 3; do
+  OUT=$(timeout 600 $BIN --report_level=short --log_level=error 2>&1); rc0=$?
+  [ $rc0 != 124 ] && break
+  echo "full run timed out (attempt $attempt)"
+done
+[ $rc0 = 124 ] && { echo "SUITE: full run timed out three times"; exit 1; }
 echo "$OUT" | tail -6
 FAILED=$(echo "$OUT" | grep -oE 'error: in "[^"]+"' | sed 's/error: in "//; s/"$//' | sort -u)
 [ -z "$FAILED" ] && { echo "SUITE: all passed"; exit 0; }
@@ -11,7 +18,7 @@ rc=0
 for t in $FAILED; do
   ok=0
   for i in 1 2 3; do
-    if $BIN --run_test="$t" --report_level=no --log_level=nothing > /dev/null 2>&1; then ok=1; break; fi
+    if timeout 120 $BIN --run_test="$t" --report_level=no --log_level=nothing > /dev/null 2>&1; then ok=1; break; fi
   done
   if [ $ok = 1 ]; then echo "RETRY-OK $t"; else echo "STILL-FAILING $t"; rc=1; fi
 done
